@@ -22,6 +22,7 @@ ASSUMPTIONS = ["the pinned SHA-256 values cannot be compared with the real remot
                "and distinctness are checked, and the loader body runs with the checksum of the fake payload served for the URL "
                "(a wrapper around the one call that carries the RemoteFileMetadata; the loader itself runs unmodified)"]
 ANCHORS = {"datasets/_base.py": [(54, 65), (68, 97)], "datasets/_datasets.py": [(1, 78)], "datasets/_ams_ix.py": [(137, 152)]}
+FORMS_HARNESSES = None
 EXPLANATION = "complete enumeration of a finite configuration space"
 
 TABLES = ["sandvine.md", "mix_it.md", "ams_ix.md", "ix_br.md"]
